@@ -246,11 +246,15 @@ let parse_rscript t : rev0 list =
     | s -> raise (Parse ("rev " ^ s))) n
 let parse_wscript t : wev list =
   let n = next_int t in
-  parse_list t (fun t -> match next t with
-    | "p" -> WPending | "x" -> WErr
-    | s when String.length s >= 2 && String.sub s 0 2 = "t:" -> WPending
-    | s when String.length s >= 2 && String.sub s 0 2 = "a:" -> WAccept (n_of_hex (String.sub s 2 (String.length s - 2)))
-    | s -> raise (Parse ("wev " ^ s))) n
+  (* "b:<q>" = a writer that lets exactly q octets through however the caller chops its writes: in the model's poll-level
+     script that is q polls accepting one octet each (C09_write_fault: the outcome is the same) *)
+  List.concat (parse_list t (fun t -> match next t with
+    | "p" -> [WPending] | "x" -> [WErr]
+    | s when String.length s >= 2 && String.sub s 0 2 = "t:" -> [WPending]
+    | s when String.length s >= 2 && String.sub s 0 2 = "a:" -> [WAccept (n_of_hex (String.sub s 2 (String.length s - 2)))]
+    | s when String.length s >= 2 && String.sub s 0 2 = "b:" ->
+        List.init (int_of_string ("0x" ^ String.sub s 2 (String.length s - 2))) (fun _ -> WAccept (n_of_hex "1"))
+    | s -> raise (Parse ("wev " ^ s))) n)
 
 let rec index_of_phys (x : avp) (l : avp list) (i : int) : int option =
   match l with [] -> None | y :: ys -> if y == x then Some i else index_of_phys x ys (i + 1)
